@@ -92,6 +92,18 @@ func genFromExact(t *rapid.T, label, alphabet string, n int) B {
 	return b
 }
 
+// needleCounts: item counts around the capacities of fixed arrays and narrow counters.
+var needleCounts = []int{9, 10, 11, 16, 17, 18, 32, 33, 34, 64, 65, 66, 75, 100, 101, 102, 255, 256, 257, 300}
+
+// manyN draws a needle count not above limit (limit <= 0: no limit).
+func manyN(t *rapid.T, label string, limit int) int {
+	n := needleCounts[uniformIdx(t, label, len(needleCounts))]
+	for limit > 0 && n > limit {
+		n /= 2
+	}
+	return n
+}
+
 func genFrom(t *rapid.T, label, alphabet string, min, max int) B {
 	if max >= 6 && len(alphabet) >= 12 && oneIn(t, label+"_needle", 160) {
 		return genLong(t, label+"_long", alphabet)
@@ -647,6 +659,9 @@ func genGenericVal(t *rapid.T) B {
 func genNameAddrList(t *rapid.T, maxVals int, allowStar bool) B {
 	var w bytes.Buffer
 	n := rapid.IntRange(1, maxVals).Draw(t, "nvals")
+	if maxVals > 1 && oneIn(t, "nvals_needle", 40) {
+		n = manyN(t, "nvals_many", 70)
+	}
 	for i := 0; i < n; i++ {
 		if i > 0 {
 			w.Write(genLWS(t, "lws_bc"))
@@ -883,6 +898,9 @@ func genMsgSpec(t *rapid.T, maxHdrs int, typed bool) MsgSpec {
 	n := rapid.IntRange(1, maxHdrs).Draw(t, "nhdrs")
 	if rapid.IntRange(0, 30).Draw(t, "nohdrs") == 0 {
 		n = 0
+	}
+	if maxHdrs >= 4 && oneIn(t, "nhdrs_needle", 50) {
+		n = manyN(t, "nhdrs_many", 130)
 	}
 	// a core of realistic headers first, in random presence
 	for i := 0; i < n; i++ {
